@@ -325,6 +325,10 @@ func family(op string) string {
 const (
 	preInstalled = "installed" // <root>/<name>/notation-<name> (and every other candidate inside the root) exists
 	preAbsent    = "absent"    // the root holds only an unrelated plugin
+	// the plugin directory is the ONLY thing in the root and the root the only thing in each of its ancestors up
+	// to the case directory (no neighbours, no decoys): whatever an operation does to a container that has
+	// become empty, or to the last entry of one, shows in the snapshot
+	preAlone = "alone"
 )
 
 // ---------------------------------------------------------------- replay
@@ -684,6 +688,15 @@ func up(p string, d int) string {
 // populate builds the world of one case: candidates of the name, ring of decoys, unrelated content.
 func (c *caseEnv) populate() {
 	R := c.root
+	if c.pre == preAlone {
+		if !mustReject(c.name) {
+			eff := path.Clean(c.name)
+			if c.placeExec(filepath.Join(R, eff, "notation-"+eff), true) {
+				_ = os.WriteFile(filepath.Join(R, eff, "data.txt"), []byte("a file of the plugin\n"), 0o644)
+			}
+		}
+		return
+	}
 	// unrelated neighbours inside the root (both pre-states): witnesses for "the whole root was removed"
 	save := c.pre
 	c.pre = preInstalled
@@ -1181,24 +1194,25 @@ func (w *world) runCase(ns nameSpec, depth int, pre, op string) string {
 	if ns.Control {
 		// non-vacuity: the honest name must really work
 		ok := false
+		inst := pre != preAbsent
 		_, statErr := os.Lstat(plugExe)
 		switch fam {
 		// (only what an honest plugin manager must do whatever its internals: no error type, no error text,
 		// no number or order of plugin runs, no policy about versions)
 		case opGet:
-			ok = pre == preInstalled && res.err == nil && ranPlugin || pre == preAbsent && res.err != nil && !ranPlugin
+			ok = inst && res.err == nil && ranPlugin || !inst && res.err != nil && !ranPlugin
 		case opUninstall:
 			_, e := os.Lstat(plugDir)
-			ok = pre == preInstalled && res.err == nil && errors.Is(e, os.ErrNotExist) || pre == preAbsent
+			ok = inst && res.err == nil && errors.Is(e, os.ErrNotExist) || !inst
 		case "install-file", "install-dir":
 			ok = res.err == nil && statErr == nil
 		case "install-dir-nonexec":
-			ok = statErr == nil && (pre == preInstalled || res.err == nil)
+			ok = statErr == nil && (inst || res.err == nil)
 		case opAddPlugin:
-			ok = pre == preInstalled && res.err == nil || pre == preAbsent
+			ok = inst && res.err == nil || !inst
 		case "verify":
 			switch {
-			case pre == preAbsent:
+			case !inst:
 				ok = !ranPlugin
 			case strings.HasSuffix(op, "-untrusted"):
 				ok = res.err != nil
@@ -1572,7 +1586,7 @@ func (w *world) runHistory(ns nameSpec, depth int, pre string, steps []string) s
 	markerOff := 0
 	violated := false
 	// reference model, used for the positive controls only (non-vacuity, never a violation)
-	installed := pre == preInstalled
+	installed := pre != preAbsent
 	modelOK := true
 	var trace []string
 
@@ -1932,7 +1946,7 @@ func main() {
 	var jobs []job
 	for _, ns := range names {
 		for _, d := range depths {
-			for _, pre := range []string{preInstalled, preAbsent} {
+			for _, pre := range []string{preInstalled, preAbsent, preAlone} {
 				for _, op := range ops {
 					jobs = append(jobs, job{ns: ns, depth: d, pre: pre, op: op})
 				}
@@ -1968,7 +1982,7 @@ func main() {
 			}
 		}
 		for _, d := range histDepths {
-			for _, pre := range []string{preInstalled, preAbsent} {
+			for _, pre := range []string{preInstalled, preAbsent, preAlone} {
 				for _, h := range hists {
 					jobs = append(jobs, job{ns: ns, depth: d, pre: pre, op: opHistory, steps: h})
 				}
@@ -1982,7 +1996,7 @@ func main() {
 	r.Extra["names"] = len(names)
 	r.Extra["depths"] = depths
 	r.Extra["operations"] = ops
-	r.Extra["pre_states"] = []string{preInstalled, preAbsent}
+	r.Extra["pre_states"] = []string{preInstalled, preAbsent, preAlone}
 	r.Extra["name_cases"] = nameCases
 	r.Extra["list_cases"] = listCases
 	var acc, unacc int
